@@ -327,7 +327,7 @@ def conforming(rng, nfuncs=None, depth=2, recursion=True):
         f = Fn("fn%d" % i, nargs, saved, True, 0)
         # thin wrappers: the return value reaches a0 without an instruction of the function writing a0
         r = rng.random()
-        f.kind = "ecallwrap" if r < 0.12 else "forward" if r < 0.24 and i > 0 else "identity" if r < 0.3 else "normal"
+        f.kind = "ecallwrap" if r < 0.12 else "forward" if r < 0.24 and i > 0 else "identity" if r < 0.3 else "fpframe" if r < 0.42 else "normal"
         if f.kind == "ecallwrap":
             f.nargs = 0
         if f.kind == "identity":
@@ -418,6 +418,16 @@ def conforming(rng, nfuncs=None, depth=2, recursion=True):
         if fn.kind == "identity":
             lines += out + ["ret"]
             continue
+        if fn.kind == "fpframe":
+            # a frame addressed through the frame pointer s0/fp, which is restored through itself
+            fr = rng.choice([16, 32])
+            out += ["addi sp, sp, -%d" % fr, "sw ra, %d(sp)" % (fr - 4), "sw s0, %d(sp)" % (fr - 8), "addi s0, sp, %d" % fr]
+            for a in range(1, fn.nargs):
+                out.append("add a0, a0, a%d" % a)
+            out += ["sw a0, -12(s0)", "lw t0, -12(s0)", "add a0, a0, t0"]
+            out += ["lw ra, -4(s0)", rng.choice(["lw s0, -8(s0)", "lw fp, -8(fp)"]), "addi sp, sp, %d" % fr, "ret"]
+            lines += out
+            continue
         if fn.kind == "forward":
             fr = 16
             out += ["addi sp, sp, -%d" % fr, "sw ra, 12(sp)"]
@@ -469,13 +479,17 @@ def inject(rng, lines, kind):
     L = list(lines)
     fn_starts = [i for i, l in enumerate(L) if l.startswith("fn") and l.endswith(":")]
     main_end = fn_starts[0] if fn_starts else len(L)
+    # main's straight part ends with its first exit: what follows (an error-path exit) is a separate block
+    if "li a7, 10" in L[:main_end]:
+        main_end = L.index("li a7, 10") + 2
     framed = [i for i in fn_starts if i + 1 < len(L) and L[i + 1].startswith("addi sp, sp, -")]
     if kind in ("overwrite-callee-saved-register", "invalid-stack-offset-usage"):
         fn_starts = framed
     if kind == "save-to-zero":
         i = rng.randrange(1, main_end - 1)
-        L.insert(i, "addi zero, a0, 1")
-        return L, "save-to-zero", "addi zero, a0, 1"
+        ins = rng.choice(["addi zero, a0, 1", "addi zero, zero, 5", "li zero, 7", "slti x0, x0, 1", "add zero, a0, a0", "ori x0, zero, 3", "mv zero, a0"])
+        L.insert(i, ins)
+        return L, "save-to-zero", ins
     if kind == "dead-assignment":
         i = rng.randrange(2, main_end - 1)
         L.insert(i, "li s11, 77")       # main never reads s11: the value is dead (and clobbers no live temporary)
@@ -803,7 +817,8 @@ def illformed(rng):
         lines = [n for n, l in enumerate(L) if l.startswith("count:")]
         return "\n".join(L) + "\n", "duplicatelabel", "count", lines[1:]
     if k.startswith("undefined"):
-        use = {"undefined-jump": "j %s", "undefined-branch": "bnez a0, %s", "undefined-la": "la a1, %s", "undefined-call": "jal %s"}[k] % "nowhere"
+        use = {"undefined-jump": rng.choice(["j %s", "jal zero, %s", "jal t0, %s", "jal t1, %s"]), "undefined-branch": rng.choice(["bnez a0, %s", "bgeu a0, a1, %s"]),
+               "undefined-la": rng.choice(["la a1, %s", "lw a1, %s"]), "undefined-call": rng.choice(["jal %s", "call %s", "jal ra, %s"])}[k] % "nowhere"
         i = L.index("addi a0, a0, 1")
         L.insert(i, use)
         return "\n".join(L) + "\n", "labelsnotdefined", "nowhere", [i]
@@ -835,7 +850,7 @@ def fold_prog(rng):
         elif k < 0.8:
             op = rng.choice(["addi", "andi", "ori", "xori", "slti", "sltiu", "slli", "srli", "srai"])
             imm = rng.choice([0, 1, 31]) if op in ("slli", "srli", "srai") else rng.choice([0, 1, -1, 7, -7, 2047, -2048])
-            L.append("%s %s, %s, %d" % (op, d, rng.choice(known + ["sp", "s1"]), imm))
+            L.append("%s %s, %s, %d" % (op, d, rng.choice(known + ["sp", "s1", "zero", "x0"]), imm))
         else:
             L.append("%s %s, %s" % (rng.choice(["mv", "neg", "not", "seqz", "snez", "sltz", "sgtz"]), d, rng.choice(known)))
         if d not in known:
